@@ -260,3 +260,46 @@ pub const ANCHORS: [AnchorPoint; 9] = [
     AnchorPoint::BottomCenter,
     AnchorPoint::BottomRight,
 ];
+
+/// Allocation-free iteration (used by the totality property): visit `points()` with a step budget.
+/// Returns (steps, exhausted).
+pub fn visit<I: Iterator>(it: I, budget: usize, f: &mut dyn FnMut(I::Item)) -> (usize, bool) {
+    let mut n = 0usize;
+    for x in it {
+        if n >= budget {
+            return (n, false);
+        }
+        n += 1;
+        f(x);
+    }
+    (n, true)
+}
+
+impl Shape {
+    pub fn visit_points(&self, budget: usize, f: &mut dyn FnMut(Point)) -> (usize, bool) {
+        match self {
+            Shape::Rect(s) => visit(s.points(), budget, f),
+            Shape::Circle(s) => visit(s.points(), budget, f),
+            Shape::Ellipse(s) => visit(s.points(), budget, f),
+            Shape::RRect(s) => visit(s.points(), budget, f),
+            Shape::Triangle(s) => visit(s.points(), budget, f),
+            Shape::Sector(s, ..) => visit(s.points(), budget, f),
+            Shape::Arc(s, ..) => visit(s.points(), budget, f),
+            Shape::Line(s) => visit(s.points(), budget, f),
+            Shape::Polyline(v, off) => visit(Polyline::new(v).translate(*off).points(), budget, f),
+        }
+    }
+    pub fn visit_pixels<C: Col>(&self, st: &PrimitiveStyle<C>, budget: usize, f: &mut dyn FnMut(Pixel<C>)) -> (usize, bool) {
+        match self {
+            Shape::Rect(s) => visit(s.into_styled(*st).pixels(), budget, f),
+            Shape::Circle(s) => visit(s.into_styled(*st).pixels(), budget, f),
+            Shape::Ellipse(s) => visit(s.into_styled(*st).pixels(), budget, f),
+            Shape::RRect(s) => visit(s.into_styled(*st).pixels(), budget, f),
+            Shape::Triangle(s) => visit(s.into_styled(*st).pixels(), budget, f),
+            Shape::Sector(s, ..) => visit(s.into_styled(*st).pixels(), budget, f),
+            Shape::Arc(s, ..) => visit(s.into_styled(*st).pixels(), budget, f),
+            Shape::Line(s) => visit(s.into_styled(*st).pixels(), budget, f),
+            Shape::Polyline(v, off) => visit(Polyline::new(v).translate(*off).into_styled(*st).pixels(), budget, f),
+        }
+    }
+}
